@@ -111,8 +111,49 @@ def one_off_grid():
 # ---------------------------------------------------------------------------------------
 # the steps before parsing, with ural's own pieces
 # ---------------------------------------------------------------------------------------
+_MEMO = {}
+
+
+def _memo(key, fn):
+    """small per-process memo: ops / impl / oracle / classify of one case ask the same things"""
+    if key in _MEMO:
+        return _MEMO[key]
+    if len(_MEMO) > 20000:
+        _MEMO.clear()
+    try:
+        v = ("ok", fn())
+    except Exception as e:  # noqa
+        v = ("err", e)
+    _MEMO[key] = v
+    return v
+
+
+def _unmemo(v):
+    if v[0] == "err":
+        raise v[1]
+    return v[1]
+
+
 def prepare(url, opts=None):
-    """what normalize_url(url, **opts) hands to urlsplit"""
+    """what normalize_url(url, **opts) hands to urlsplit (memoised)"""
+    o = full_opts(opts)
+    return _unmemo(_memo(("prep", url, o["infer_redirection"], o["platform_aware"]), lambda: _prepare(url, o)))
+
+
+def real_both(url, opts=None, query_item_filter=None):
+    """(unsplit=False result, string) of the real normalize_url (memoised; raises what it raises)"""
+    o = full_opts(opts)
+    return _unmemo(_memo(("real", url, lib.jd(o), query_item_filter), lambda: _real_both(url, o, query_item_filter)))
+
+
+def _real_both(url, o, query_item_filter):
+    from ural import normalize_url
+
+    kw = _real_kwargs(o, query_item_filter)
+    return normalize_url(url, unsplit=False, **kw), normalize_url(url, **kw)
+
+
+def _prepare(url, opts=None):
     from ural.patterns import CONTROL_CHARS_RE, PROTOCOL_RE
     from ural.quote import upper_quoted
     from ural.infer_redirection import infer_redirection as resolve
@@ -202,11 +243,7 @@ def ops(url, opts=None, query_item_filter=None):
 
 def real_normalize(url, opts=None, query_item_filter=None):
     """[tuple-or-string of unsplit=False, string] of the real function"""
-    from ural import normalize_url
-
-    kw = _real_kwargs(full_opts(opts), query_item_filter)
-    t = normalize_url(url, unsplit=False, **kw)
-    s = normalize_url(url, **kw)
+    t, s = real_both(url, opts, query_item_filter)
     return [list(t) if not isinstance(t, str) else t, s]
 
 
@@ -456,7 +493,8 @@ def fn_impl(op):
 # ---------------------------------------------------------------------------------------
 IRRELEVANT_LABELS = ["www", "WWW", "www2", "www9", "m", "M", "mobile", "Mobile", "amp", "AMP"]
 LOOKALIKE_LABELS = ["forum-m", "wwwx", "www22", "m-a", "xm", "mm", "amp-", "ampx", "wwww", "mobile2", "xn--m-bja", "xn--9ca", "am", "w", "amp-x",
-                    "amp-www", "amp-xn--tlrama-bvab", "amp-amp-a", "x-www", "www-1"]
+                    "amp-www", "amp-xn--tlrama-bvab", "amp-amp-a", "x-www", "www-1", "ww", "ww2", "mobil", "mobiles", "wwwm", "mwww", "amp2",
+                    "wap", "web", "www_", "m_"]
 LANG_LABELS = ["fr", "FR", "en", "us", "fr-fr", "fr-FR", "en-us", "pt-br", "zh-cn"]
 NON_LANG_LABELS = ["xx", "zz", "fra", "f", "fr-xx", "xx-fr", "fr_fr", "fr-f", "f-fr", "frfr", "fr-fra", "en-u", "q1"]
 BASE_DOMAINS = ["a.com", "example.com", "lemonde.fr", "example.co.uk", "blog.example.co.uk", "xn--tlrama-bvab.fr", "télérama.fr",
@@ -478,6 +516,10 @@ TRACKING_ITEMS = [
     ["usqp", "1"], ["wpamp", None], ["_rdr", None], ["_rdc", "1"], ["t", "1"], ["si", "x"], ["ab_channel", "x"], ["gl", "fr"], ["hl", "en"], ["GL", "fr"],
     ["r%65f", "fb"], ["%75tm_source", "1"], ["utm%5Fsource", "1"], ["fbclid%20", "1"], ["ref", "f%62"], ["s", "%31"], ["fbclid\n", "1"],
     ["utm_source", "a=b"], ["__twitter_impression", "true"], ["feature", "share"], ["echobox", "1"], ["cn-reloaded", "1"],
+    # look-alikes of tracking keys: must be kept
+    ["x_fbclid", "1"], ["my_sid", "1"], ["a_utm_source", "1"], ["not_gclid", "1"], ["xfbclid", "1"], ["fbclidx", "1"], ["sidx", "1"],
+    ["utmsource", "1"], ["x_ref", "fb"], ["refx", "fb"], ["xs", "1"], ["ss", "12"], ["mm", "1"], ["x-amp", "1"], ["ampx", "1"], ["_amp", "1"],
+    ["x_usqp", "1"], ["fbclid_x", "1"], ["ga", "1"], ["utm", None], ["sessionidx", "1"], ["xsid", "1"], ["feature2", "x"],
 ]
 PLAIN_ITEMS = [["a", "1"], ["b", "2"], ["a", "2"], ["a", None], ["a", ""], ["", None], ["", ""], ["B", "1"], ["é", "1"], ["%C3%A9", "1"], ["z", "%41"],
                ["id", "10"], ["page", "2"], ["q", "x y"], ["q", "x+y"], ["k", "a=b"], ["a%26b", "1"], ["%41", "1"], ["A", "1"]]
